@@ -82,3 +82,15 @@ CHECKS["C15"] = {
         {"bin": "asan/C15", "cases": P(120, 1500), "procs": P(8, 16), "size": 70, "shrink_budget": 60},
     ],
 }
+
+CHECKS["C16"] = {
+    "level": "exploration",
+    "technique": "metamorphic relations over generated (content, configuration, two write segmentations, edit): identical output across segmentations and repeated runs; prefix/suffix chunk identity between original and edited content; automatic chunk sizes within the effective bounds",
+    "level_text": "Generated contents up to 1 MiB (thorough 3 MiB) with several automatic boundaries (hash-triggered on random data, max-triggered on low-entropy data), none/zstd, optional dictionary, manual and automatic chunking with generated min/max, two independent write segmentations (one big write, tiny writes, block-edge sizes, random cuts) and an insert/delete/replace edit at the start, middle or end. Four relations are asserted per case. Sampled; no enumeration.",
+    "level_note": "Trusted: reference header parser for the chunk tables. Effective bounds mirror the documented rule avg/4..avg*4 clamped by the configured min/max (avg = 32 KiB), with the configured limits winning when they conflict.",
+    "rule": "case = (content kind/length/seed, configuration, end_chunk offsets, two write-cut lists, edit). Non-trivial = >= 3 data chunks, at least one chunk asserted identical across the original/edited pair (prefix or suffix), and the two write histories differ. Distinct by choice-sequence hash.",
+    "assumptions": ["in manual mode both histories call end_chunk at the same content offsets", "bounds relation only for automatic mode without explicit end_chunk calls"],
+    "runs": [
+        {"bin": "asan/C16", "cases": P(110, 1500), "procs": P(8, 16), "size": P(60, 100), "shrink_budget": 80},
+    ],
+}
